@@ -24,12 +24,12 @@ import (
 )
 
 type scenario struct {
-	name  string
-	procs int                // value reported by GOMAXPROCS(0)/NumCPU() inside the library
-	body  func() string      // one execution; returns the observable outcome
-	want  func() string      // absolute expected outcome ("" = use the default schedule's outcome)
-	prop  string
-	about string
+	name       string
+	procs      int           // value reported by GOMAXPROCS(0)/NumCPU() inside the library
+	body       func() string // one execution; returns the observable outcome
+	want       func() string // absolute expected outcome ("" = use the default schedule's outcome)
+	prop       string
+	about      string
 	randomized bool // outcome legitimately differs between free-running runs (real RNG)
 }
 
@@ -90,7 +90,7 @@ func explore(sc *scenario, bound int, maxExecs int64, delay bool) result {
 	}
 	outcomes := map[string]int{}
 	first := true
-	st := vsched.Explore(vsched.Options{Bound: bound, MaxExecs: maxExecs, MaxPoints: 50000, Delay: delay}, body, func(x *vsched.Exec) {
+	st := vsched.Explore(vsched.Options{Bound: bound, MaxExecs: maxExecs, MaxPoints: 50000, Delay: delay, Stop: func() bool { return len(res.Failures) >= 5 }}, body, func(x *vsched.Exec) {
 		add := func(kind, msg string) {
 			if len(res.Failures) < 5 {
 				res.Failures = append(res.Failures, failure{kind, msg, x.Choices()})
@@ -165,6 +165,33 @@ func main() {
 		}
 		b, _ := json.Marshal(res)
 		fmt.Println(string(b))
+	case "batch":
+		// sched batch <bound> <maxexecs> <file with one scenario name per line>: one JSON result per line
+		bound, _ := strconv.Atoi(os.Args[2])
+		maxExecs, _ := strconv.ParseInt(os.Args[3], 10, 64)
+		data, err := os.ReadFile(os.Args[4])
+		if err != nil {
+			fmt.Fprintln(os.Stderr, "ERROR:", err)
+			os.Exit(2)
+		}
+		for _, name := range strings.Split(strings.TrimSpace(string(data)), "\n") {
+			if name == "" {
+				continue
+			}
+			res := explore(find(name), bound, maxExecs, false)
+			res.Mode = "deviation-bounded"
+			for i := range res.Failures {
+				// default choices (0) at the end are implied on replay
+				c := res.Failures[i].Choices
+				for len(c) > 0 && c[len(c)-1] == 0 {
+					c = c[:len(c)-1]
+				}
+				res.Failures[i].Choices = c
+			}
+			res.Sample = nil
+			b, _ := json.Marshal(res)
+			fmt.Println(string(b))
+		}
 	case "replay":
 		sc := find(os.Args[2])
 		var choices []int
@@ -189,12 +216,18 @@ func main() {
 			xs[i] = vsched.RunOnce(vsched.Options{MaxPoints: 50000}, choices, nil, func() { o = sc.body() })
 			outs[i] = o
 		}
-		if outs[0] != outs[1] || fmt.Sprint(xs[0].Choices()) != fmt.Sprint(xs[1].Choices()) {
-			fmt.Fprintln(os.Stderr, "ERROR: replay is not deterministic")
-			os.Exit(2)
-		}
 		x := xs[0]
 		bad := x.Failed() || outs[0] != want
+		bad1 := xs[1].Failed() || outs[1] != want
+		if outs[0] != outs[1] || fmt.Sprint(xs[0].Choices()) != fmt.Sprint(xs[1].Choices()) {
+			// Identical decisions must give identical observations. The one tolerated exception: both runs
+			// violate and differ only in the detail text (a mesh that already holds value-identical duplicate
+			// faces has no canonical iteration order among them).
+			if !(bad && bad1) {
+				fmt.Fprintln(os.Stderr, "ERROR: replay is not deterministic")
+				os.Exit(2)
+			}
+		}
 		b, _ := json.Marshal(map[string]interface{}{"scenario": sc.name, "deadlock": x.Deadlock, "horizon": x.Horizon, "panic": x.Panic, "outcome": short(outs[0]), "want": short(want), "violates": bad})
 		fmt.Println(string(b))
 		if bad {
